@@ -22,19 +22,22 @@ def toBytes (s : Str) : List Byte := s.map Char.toNat
 def ofBytes (b : List Byte) : Str := b.map Char.ofNat
 def hexB (b : List Byte) : String := hex (ofBytes b)
 
-def tokLine (t : Token) (pos : Nat) : List String := ["t", toString t.kind.code, hexB t.val, toString pos]
+/-- `t <type> <value> <pos> <line> <column> <readPreviousIdentifier() after the token>` -/
+def tokLine (input : List Byte) (t : Token) (pos : Nat) : List String :=
+  ["t", toString t.kind.code, hexB t.val, toString pos, toString (lineAt input pos), toString (colAt input pos),
+   hexB (prevIdent input (pos + t.val.length))]
 def errLine (e : LexErr × Nat) : List String := ["e", toString e.1.code, toString e.2]
 
 /-- the `NextToken` loop with absolute positions (IO glue: fuel = input length + 1 is never exhausted,
 see `C11.lex_progress`; exhaustion would print `fuel-exhausted`) -/
-def lexLines : Nat → List Byte → Nat → List (List String)
+def lexLines (input : List Byte) : Nat → List Byte → Nat → List (List String)
   | 0, _, _ => [["fuel-exhausted"]]
   | fuel + 1, s, pos =>
     let r := nextToken s
     let errs := (nextErrs s pos).map errLine
-    let line := tokLine r.1 (pos + tokenStart s)
+    let line := tokLine input r.1 (pos + tokenStart s)
     if r.1.kind = .eof then errs ++ [line]
-    else errs ++ line :: lexLines fuel (s.drop r.2) (pos + r.2)
+    else errs ++ line :: lexLines input fuel (s.drop r.2) (pos + r.2)
 
 def kindTag : Kind → String
   | .eof => "eof" | .ident => "ident" | .number => "number" | .string => "string" | .qident => "qident"
@@ -44,7 +47,7 @@ def kindTag : Kind → String
 /-- tokens (with positions) read back from obs lines `t <code> <hex> <pos>`; `none` = malformed -/
 def readToks (codeKind : Int → Option Kind) : List (List String) → Option (List (Token × Nat))
   | [] => some []
-  | ["t", c, v, p] :: rest => do
+  | ("t" :: c :: v :: p :: _) :: rest => do
     let c ← parseInt c; let k ← codeKind c; let v ← unhex v; let p ← parseNat p
     let r ← readToks codeKind rest
     some ((⟨k, toBytes v⟩, p) :: r)
@@ -87,7 +90,7 @@ structure OpOut where
   tags : List String := []
 
 def lexOp (input : List Byte) (implObs : List (List String)) (want : Option (List Token)) (extraTags : List String) : OpOut :=
-  let lines := lexLines (input.length + 1) input 0
+  let lines := lexLines input (input.length + 1) input 0
   let modelToks := (lines.filter (·.head? == some "t")).length
   let consistent := modelToks == (lexAll input).length
   let tags := ((lexAll input).map (fun t => "tok-" ++ kindTag t.kind)).eraseDups ++
